@@ -140,6 +140,29 @@ func siblingGroups(r *Rand) [][]string {
 		}
 		groups = append(groups, grp)
 	}
+	// the same mnemonic with operands of every CLASS (segment register, general register, small and large immediate, memory): a
+	// lookup that rearranges or trims the shared form list of a mnemonic while serving one class changes what a later program of
+	// another class gets; the tail makes a wrong SIZE visible as well
+	for _, mode := range []int{16, 32} {
+		pre := ""
+		if mode == 32 {
+			pre = "[BITS 32]\n"
+		}
+		for _, g := range [][]string{
+			{"PUSH ES", "PUSH DS", "PUSH CS", "PUSH SS", "PUSH 1", "PUSH 0x7f", "PUSH AX", "PUSH BX", "PUSH WORD [BX]", "PUSH ECX", "PUSH -1"},
+			{"POP ES", "POP DS", "POP AX", "POP CX", "POP WORD [BX]", "POP ESI"},
+			{"MOV DS,AX", "MOV ES,BX", "MOV AX,ES", "MOV BX,DS", "MOV [BX],ES", "MOV CX,DX", "MOV CX,5", "MOV CX,[BX]", "MOV ECX,EDX", "MOV CL,5"},
+			{"ADD AX,ES", "ADD AX,BX", "ADD AX,5", "ADD AX,0x1234", "ADD BX,5", "ADD BX,[SI]", "ADD [SI],BX", "ADD BL,5", "ADD EBX,5"},
+			{"CMP AX,ES", "CMP AX,1", "CMP BX,1", "CMP BX,0x1234", "CMP BYTE [BX],1", "CMP BL,CL", "CMP ECX,-1"},
+			{"OUT DX,AL", "OUT 0x21,AL", "OUT DX,AX", "IN AL,DX", "IN AL,0x60", "IN AX,DX", "INT 0x10", "INT 3"},
+		} {
+			var grp []string
+			for _, st := range g {
+				grp = append(grp, pre+"\t"+st+"\n\tMOV BX,l\nl:\n\tJMP l\n\tDW l\n")
+			}
+			groups = append(groups, grp)
+		}
+	}
 	return groups
 }
 
